@@ -209,6 +209,29 @@ def run(chk):
             worst = max(len(ck.fanin(n)) for n in ck.nodes())
             prob = {"problem": "fan-in bound exceeded", "max_fanin": worst} if worst > k2 else ({"problem": "result is cyclic"} if ck.is_cyclic() else same_function(c, ck, sorted(c.nodes())))
             chk.ob("C05.S.limit_fanin", key, prob is None, file=FILE, func="limit_fanin", fact=prob or {"max_fanin": worst}, expect="a second pass keeps every original function")
+    # wide gates that no primary output observes: dead logic, the next-state logic of a flop, a circuit without outputs - "no gate
+    # has more than k fan-in" speaks of every gate
+    from ..refmodel import RefBlackBox as _RBB2
+
+    _ffu = _RBB2("ff", ["d"], ["q"])
+    unobserved = {
+        "dead wide gate": build({"a": ("input", []), "b": ("input", []), "c": ("input", []), "d": ("input", []), "dead": ("nand", ["a", "b", "c", "d"]), "o": ("and", ["a", "b"])}, outputs=["o"]),
+        "no outputs at all": build({"a": ("input", []), "b": ("input", []), "c": ("input", []), "g": ("xor", ["a", "b", "c"]), "h": ("or", ["g", "a", "b", "c"])}, outputs=[]),
+        "next-state logic of a flop": build({"a": ("input", []), "b": ("input", []), "c": ("input", []), "ns": ("nor", ["a", "b", "c", "w"]), "u.d": ("bb_input", ["ns"]), "u.q": ("bb_output", []), "w": ("buf", ["u.q"]),
+                                              "o": ("not", ["a"])}, outputs=["o"], blackboxes={"u": _ffu}),
+    }
+    for uname, cu_ in unobserved.items():
+        for k in (2, 3):
+            r = P.call(FILE, "limit_fanin", cu_, k)
+            n_eval += 1
+            key = f"limit_fanin::{uname}::k={k}"
+            if r[0] != "return":
+                chk.ob("C05.S.limit_fanin", key, False, file=FILE, func="limit_fanin", fact={"result": str(r)[:160]})
+                continue
+            ck = r[1]
+            worst = max(len(ck.fanin(n_)) for n_ in ck.nodes())
+            prob = {"problem": "fan-in bound exceeded at a gate no output observes", "max_fanin": worst, "gate": next(n_ for n_ in sorted(ck.nodes()) if len(ck.fanin(n_)) == worst)} if worst > k else same_function(cu_, ck, sorted(cu_.nodes()))
+            chk.ob("C05.S.limit_fanin", key, prob is None, file=FILE, func="limit_fanin", fact=prob or {"max_fanin": worst}, expect="no gate has more than k fan-in, observed by an output or not")
     owned = build({"a": ("input", []), "b": ("input", []), "c": ("input", []), "d": ("input", []), "g_limit_fanin_0": ("or", ["a", "d"]), "g": ("nand", ["a", "b", "c", "g_limit_fanin_0"]),
                    "g_limit_fanout_0": ("not", ["a"]), "o": ("xor", ["g", "g_limit_fanout_0", "b", "c"])}, outputs=["o", "g"])
     for fname, attr in (("limit_fanin", "fanin"), ("limit_fanout", "fanout")):
